@@ -79,6 +79,10 @@ inductive PV where
   | table (which : String)               -- an operator dict
   | key                                  -- the normalised operator lexeme
   | unset
+  | getter (m : M Val)                   -- `partial(find_symbol, name)`: evaluated when called
+  | setter (f : Val → M Unit)            -- `partial(install_symbol, name)`
+  | lazy (get : M Val) (set : Val → M Unit)   -- a property whose getter / setter run when `fget()` / `fset(v)` is called
+  | list (l : List PV)                   -- what a generator has yielded so far
 
 abbrev Locals := List (String × PV)
 
@@ -98,6 +102,8 @@ structure Node where
   children : List (M (Out × Bool)) := []
   steps : String → List NavStep := fun _ => []
   again : M Out := pure .normal                              -- `while`: the loop once more (Spec: the oracle, one fuel less)
+  getAttr : Inst → String → M Val := fun _ _ => fail "getattr"            -- `getattr(<instance>, name)`
+  setAttr : Inst → String → Val → M Unit := fun _ _ _ => fail "setattr"   -- `setattr(<instance>, name, value)`
 
 /-- how a statement list is left -/
 inductive Sig where
@@ -250,6 +256,9 @@ def iCall (C : Ctx) (nd : Node) (L : Locals) : PyCall → M (Except Out PV)
   | .fget v =>
     match L.get v with
     | .val x => pure (.ok (.val x))
+    | .lazy g _ => do
+      let x ← g
+      pure (.ok (.val x))
     | _ => fail "fget of something that is not a property"
   | .fset v w =>
     match L.get v, L.get w with
@@ -258,6 +267,9 @@ def iCall (C : Ctx) (nd : Node) (L : Locals) : PyCall → M (Except Out PV)
       pure (.ok (.val .none))
     | .lval (.field i name), .val y => do
       writeField C i name y
+      pure (.ok (.val .none))
+    | .lazy _ st, .val y => do
+      st y
       pure (.ok (.val .none))
     | _, _ => fail "fset"
   | .domainNew cls => do
@@ -323,6 +335,28 @@ def iCall (C : Ctx) (nd : Node) (L : Locals) : PyCall → M (Except Out PV)
     match L.get v with
     | .val x => pure (.ok (.val x))
     | _ => fail "property of something that is not a value"
+  | .fieldVal f => pure (.ok (.val (.str (nd.str f))))
+  | .stripFirstLast f => pure (.ok (.val (.str (String.ofList (((nd.str f).toList.drop 1).dropLast)))))
+  | .upperEq f s => pure (.ok (.val (.bool (asciiUpper (nd.str f) == s))))
+  | .lowerEq f s => pure (.ok (.val (.bool (asciiLower (nd.str f) == s))))
+  | .intOf f =>
+    match (nd.str f).toInt? with
+    | some i => pure (.ok (.val (.int i)))
+    | none => fail "int(): not a numeral"
+  | .floatOf _ => fail "reals are not modelled"
+  | .propertyAttr gh gn sh sn =>
+    pure (.ok (.lazy (do let i ← pvInst "getattr" (L.get gh); nd.getAttr i (nameOf nd gn))
+                     (fun v => do let i ← pvInst "setattr" (L.get sh); nd.setAttr i (nameOf nd sn) v)))
+  | .partialFind n _ => pure (.ok (.getter (lookupVar C (nameOf nd n))))
+  | .partialInstall n => pure (.ok (.setter (fun v => install (nameOf nd n) v)))
+  | .property2 g st =>
+    match L.get g, L.get st with
+    | .getter m, .setter f => pure (.ok (.lazy m f))
+    | _, _ => fail "property(fget, fset)"
+  | .navClosure args =>
+    match args with
+    | [kl, rel, ph] => pure (.ok (.step ⟨nameOf nd kl, nameOf nd rel, nameOf nd ph⟩))
+    | _ => fail "chain.nav takes a key letter, a rel id and a phrase"
 
 /-! ### statements -/
 
@@ -426,6 +460,11 @@ mutual
       | .error o => pure (L, .exc o)
     | .defClosure name param body, L =>
       pure (L.set name (.closure (fun i => closureRun (iStmts C nd body (L.set param (.val (.inst i)))))), .next)
+    | .yield_ c, L => do
+      let r ← iCall C nd L c
+      match r with
+      | .ok v => pure (L.set "$yield" (.list ((match L.get "$yield" with | .list l => l | _ => []) ++ [v])), .next)
+      | .error o => pure (L, .exc o)
   def iStmts (C : Ctx) (nd : Node) : List PyStmt → Locals → M (Locals × Sig)
     | [], L => pure (L, .next)
     | s :: rest, L => do
@@ -1369,5 +1408,201 @@ theorem unique_body (C : Ctx) (n : Nat) (body : Block) (c : Cfg) (c' : Cfg)
 
 theorem unique_start (kind : WalkerKind) (kw : List (String × Val)) (self : Val) : EnvUnique (mkFrame kind kw self).env := by
   simp [mkFrame, EnvUnique, envNames]
+
+/-! ### literals, variable access, field access, navigation step -/
+
+/-- a handler that returns a property object: the object -/
+def sigP : Sig → M PV
+  | .ret v => pure v
+  | _ => fail "the handler did not return"
+
+def handlerP (C : Ctx) (nd : Node) (body : List PyStmt) : M PV := do
+  let r ← iStmts C nd body []
+  sigP r.2
+
+/-- `<property>.fget()` / `<property>.fset(v)` -/
+def propGet : PV → M Val
+  | .val x => pure x
+  | .lazy g _ => g
+  | _ => fail "fget of something that is not a property"
+def propSet (v : Val) : PV → M Unit
+  | .lazy _ st => st v
+  | _ => fail "fset of something that has no setter"
+
+theorem integer_eq (C : Ctx) (rec : Oracle) (v : String) (i : Int) (h : v.toInt? = some i) :
+    evalStep C rec (.int i) = handlerE C (strNode [("value", v)]) accept_IntegerNode := by
+  ishape [accept_IntegerNode, strNode, h]
+
+theorem string_eq (C : Ctx) (rec : Oracle) (v : String) :
+    evalStep C rec (.str (String.ofList ((v.toList.drop 1).dropLast))) =
+      handlerE C (strNode [("value", v)]) accept_StringNode := by
+  ishape [accept_StringNode, strNode]
+
+theorem boolean_eq (C : Ctx) (rec : Oracle) (v : String) :
+    evalStep C rec (.bool (asciiUpper v == "TRUE")) = handlerE C (strNode [("value", v)]) accept_BooleanNode := by
+  ishape [accept_BooleanNode, strNode]
+
+/-- accept_VariableAccessNode touches nothing: it returns a property whose getter is the lookup and whose setter the install -/
+theorem variableAccess_eq (C : Ctx) (x : String) :
+    handlerP C (strNode [("variable_name", x)]) accept_VariableAccessNode =
+      pure (.lazy (lookupVar C x) (fun v => install x v)) := by
+  simp only [handlerP, sigP]
+  ishape [accept_VariableAccessNode, strNode, sigP]
+
+theorem variableRead_eq (C : Ctx) (rec : Oracle) (x : String) :
+    evalStep C rec (.var x) = (handlerP C (strNode [("variable_name", x)]) accept_VariableAccessNode >>= propGet) := by
+  rw [variableAccess_eq]; rfl
+
+theorem variableWrite_eq (C : Ctx) (rec : Oracle) (x : String) (e : Expr) :
+    execStep C rec (.assignVar x e) = (do
+      let v ← rec.eval e
+      let p ← handlerP C (strNode [("variable_name", x)]) accept_VariableAccessNode
+      propSet v p
+      pure .normal) := by
+  simp only [variableAccess_eq, pure_bind, propSet, execStep]
+
+def fieldNode (C : Ctx) (rec : Oracle) (h : M Val) (name : String) : Node :=
+  { str := fun f => ([("name", name)].lookup f).getD ""
+    acceptE := exprChild "handle" h
+    getAttr := readField C rec
+    setAttr := writeField C }
+
+/-- accept_FieldAccessNode evaluates the handle; reading / writing the attribute happens when fget / fset is called -/
+theorem fieldAccess_eq (C : Ctx) (rec : Oracle) (h : M Val) (name : String) :
+    handlerP C (fieldNode C rec h name) accept_FieldAccessNode = (do
+      let hv ← h
+      pure (.lazy (do let i ← asInst hv; readField C rec i name) (fun v => do let i ← asInst hv; writeField C i name v))) := by
+  simp only [handlerP]
+  ishape [accept_FieldAccessNode, fieldNode, exprChild, sigP]
+
+theorem fieldRead_eq (C : Ctx) (rec : Oracle) (h : Expr) (name : String) :
+    evalStep C rec (.field h name) = (handlerP C (fieldNode C rec (rec.eval h) name) accept_FieldAccessNode >>= propGet) := by
+  simp only [fieldAccess_eq, bind_assoc, pure_bind, propGet, evalStep]
+
+theorem fieldWrite_eq (C : Ctx) (rec : Oracle) (h : Expr) (name : String) (e : Expr) :
+    execStep C rec (.assignField h name e) = (do
+      let v ← rec.eval e
+      let p ← handlerP C (fieldNode C rec (rec.eval h) name) accept_FieldAccessNode
+      propSet v p
+      pure .normal) := by
+  simp only [fieldAccess_eq, bind_assoc, pure_bind, propSet, execStep]
+
+theorem navigationStep_eq (C : Ctx) (kl rel ph : String) :
+    handlerP C (strNode [("key_letter", kl), ("rel_id", rel), ("phrase", ph)]) accept_NavigationStepNode =
+      pure (.step ⟨kl, rel, stripTicks ph⟩) := by
+  simp only [handlerP]
+  ishape [accept_NavigationStepNode, strNode, sigP]
+
+/-! ### the wrapper `ActionWalker.accept` and `default_accept`
+
+  `Spec`'s monad has one kind of failure ("left the domain", no configuration).  To say what the SOURCE does with an
+  `xtuml.MetaException` (relate rejected, unknown link / class, second delete, …) the wrapper is interpreted over computations
+  that say so explicitly: `WRes.raised` = a MetaException is propagating, the configuration is whatever the handler had done. -/
+
+inductive WRes (α : Type) where
+  | ret (a : α)       -- `return a`
+  | raised            -- an xtuml.MetaException propagates
+  | next              -- fell through (the function returns None)
+
+mutual
+  def iW {α : Type} (disp : M (WRes α)) : WStmt → M (WRes α)
+    | .returnDispatch => disp
+    | .logError => pure .next
+    | .tryExcept body exc handler => do
+      let r ← iWs disp body
+      match r with
+      | .raised => if exc = "xtuml.MetaException" then iWs disp handler else pure .raised
+      | r => pure r
+  def iWs {α : Type} (disp : M (WRes α)) : List WStmt → M (WRes α)
+    | [] => pure .next
+    | s :: rest => do
+      let r ← iW disp s
+      match r with
+      | .next => iWs disp rest
+      | r => pure r
+end
+
+/-- a handler that raises no MetaException -/
+def inDomain {α : Type} (m : M α) : M (WRes α) := do
+  let a ← m
+  pure (.ret a)
+
+/-- in the domain (no MetaException) the wrapper is transparent: `self.accept(child)` is the child's handler -/
+theorem accept_inDomain {α : Type} (m : M α) : iWs (inDomain m) ActionWalker_accept = inDomain m := by
+  simp only [ActionWalker_accept, iWs, iW, inDomain, bind_assoc, pure_bind, bind_pure]
+
+/-- a MetaException is swallowed: the wrapper returns None in the configuration the handler left, and nothing propagates -/
+theorem accept_meta {α : Type} (disp : M (WRes α)) (c c' : Cfg) (h : disp c = some (.ok (.raised, c'))) :
+    iWs disp ActionWalker_accept c = some (.ok (.next, c')) := by
+  simp only [ActionWalker_accept, iWs, iW, bind_assoc, pure_bind]
+  rw [bnd_ok h]
+  rfl
+
+theorem accept_ret {α : Type} (disp : M (WRes α)) (c c' : Cfg) (a : α) (h : disp c = some (.ok (.ret a, c'))) :
+    iWs disp ActionWalker_accept c = some (.ok (.ret a, c')) := by
+  simp only [ActionWalker_accept, iWs, iW, bind_assoc, pure_bind]
+  rw [bnd_ok h]
+  rfl
+
+/-- an unsupported node: only a log line; None, the configuration is untouched -/
+theorem default_accept_eq {α : Type} (disp : M (WRes α)) : iWs disp ActionWalker_default_accept = pure .next := by
+  simp only [ActionWalker_default_accept, iWs, iW, pure_bind]
+
+/-- `self.accept(child)` for a statement child, through the wrapper: an outcome, or None after a swallowed MetaException -/
+def wrappedChild (disp : M (WRes Out)) : M (Out × Bool) := do
+  let r ← iWs disp ActionWalker_accept
+  match r with
+  | .ret o => pure (o, false)
+  | .next => pure (.normal, false)
+  | .raised => fail "unreachable: the wrapper catches MetaException"
+
+/-- the statement list with the wrapper's behaviour spelled out: a child whose handler raised a MetaException counts as
+    completed, the list GOES ON with the next child in the configuration the failed handler left -/
+def swallowList : List (M (WRes Out)) → M Out
+  | [] => pure .normal
+  | d :: rest => do
+    let r ← d
+    match r with
+    | .raised => swallowList rest
+    | .next => swallowList rest
+    | .ret .normal => swallowList rest
+    | .ret o => pure o
+
+theorem wrappedChild_eq (disp : M (WRes Out)) : wrappedChild disp = (do
+    let r ← disp
+    match r with
+    | .ret o => pure (o, false)
+    | _ => pure (.normal, false)) := by
+  simp only [wrappedChild, ActionWalker_accept, iWs, iW, bind_assoc, pure_bind]
+  apply bind_congr; intro r
+  cases r <;> simp only [pure_bind, ↓reduceIte, iWs, iW] <;> rfl
+
+theorem swallow_loop (body : M (Out × Bool) → Locals → M (Locals × Sig)) (g : M (Out × Bool) → Locals → Locals)
+    (hb : ∀ m L, body m L = do let x ← m; pure (g m L, sigOfOut x.1)) : ∀ (ds : List (M (WRes Out))) (L : Locals),
+    (do let r ← iLoop body (ds.map wrappedChild) L
+        sigOut r.2) = swallowList ds
+  | [], L => rfl
+  | d :: rest, L => by
+    have ih := swallow_loop body g hb rest
+    simp only [List.map, iLoop, swallowList, bind_assoc, hb, wrappedChild_eq, pure_bind]
+    apply bind_congr; intro r
+    cases r with
+    | ret o => cases o <;> simp only [sigOfOut, pure_bind] <;> first | exact ih _ | rfl
+    | raised => simp only [sigOfOut, pure_bind]; exact ih _
+    | next => simp only [sigOfOut, pure_bind]; exact ih _
+
+theorem statementList_swallows (C : Ctx) (ds : List (M (WRes Out))) :
+    handlerS C { children := ds.map wrappedChild } accept_StatementListNode = swallowList ds := by
+  simp only [handlerS, accept_StatementListNode, iStmts, iStmt, thenSig_pure, bind_pure]
+  refine swallow_loop _ (fun m L => ("child", .child m) :: L) ?_ ds []
+  intro m L
+  ishape []
+  apply bind_congr; intro x
+  cases x.1 <;> rfl
+
+/-- in the domain the wrapped child is the child: the statement-list equation of `Spec` is about the source as it is -/
+theorem wrappedChild_inDomain (rec : Oracle) (s : Interp.Stmt) : wrappedChild (inDomain (rec.exec s)) = stmtChild rec s := by
+  rw [wrappedChild, accept_inDomain]
+  simp only [inDomain, stmtChild, bind_assoc, pure_bind]
 
 end Pyx.IShape
